@@ -92,6 +92,7 @@ def encVal : Val → String
   | .carr n l b => s!"C:{n}:{l}:" ++ encNats b
   | .ptrs l => "P:" ++ ";".intercalate (l.map encNats)
   | .vstr l => "VS:" ++ ";".intercalate (l.map encNats)
+  | .rec l => "REC:" ++ ",".intercalate (l.map toString)
   | .ref a l => s!"R:{a}:" ++ ",".intercalate (l.map toString)
 
 def dv (s : String) : Val := decVal (s.splitOn ":")
@@ -171,6 +172,24 @@ def handleIfGuards : List String → String
 /-- `ranks <min> <max>` -/
 def handleRanks : List String → String
   | [lo, hi] => encNats (assumedRanks lo.toNat! hi.toNat!)
+  | _ => "bad-op"
+
+/-- `pure <lang> <isFunction,pureAttr,funcConst,resultShadow,rsgroup,rspointer,ressuffix> <intents>` -> 1 if PURE -/
+def handlePure : List String → String
+  | [lang, hd, ints] =>
+    let h := decNats hd
+    let ctx := (lookup (rowsL lang) [1, h.getD 4 0, h.getD 5 0, 43, h.getD 6 0]).bufArgs.contains 6
+    let d : IfaceD := ⟨b (h.getD 0 0), b (h.getD 1 0), b (h.getD 2 0), b (h.getD 3 0), ctx, decNats ints⟩
+    if interfacePure d then "1" else "0"
+  | _ => "bad-op"
+
+/-- `cderef <lang> <cpath> <isIndirect>` -> c_deref c_member c_addr as 0/1 (local-variable kind from the table row) -/
+def handleCDeref : List String → String
+  | [lang, cp, ind] =>
+    let r := lookup (rowsL lang) (decNats cp)
+    let x := computeCDeref r.cxxLocal (ind == "1")
+    let f := fun (v : Bool) => if v then "1" else "0"
+    f x.1 ++ f x.2.1 ++ f x.2.2
   | _ => "bad-op"
 
 end Driver
